@@ -162,7 +162,10 @@ Print Assumptions C15_apart_check.
 Theorem C15_source_shape :
   gen_pop_from_end = true /\ gen_requeue_front = true /\ gen_merge_keeps_resolved = true /\ gen_groups_contiguous = true
   /\ gen_page_marker = -1 /\ gen_node_min_count = 0 /\ gen_childs_n = 8
-  /\ gen_queue_sorts_by_offset = true /\ gen_ensure3d_fresh = true.
+  /\ gen_queue_sorts_by_offset = true /\ gen_ensure3d_fresh = true
+  (* Bounds is a plain record (fields mins / maxs, methods overlaps / ensure_3d, no constructor hook): building a box -
+     by the caller, by ensure_3d, for a voxel - has no error outcome, whatever the corners (a box without thickness is a box) *)
+  /\ gen_bounds_plain = true.
 Proof. repeat split. Qed.
 Print Assumptions C15_source_shape.
 
